@@ -2,10 +2,10 @@
      (call MSIZE SMSIZE Method (arg…) SCRIPT)  ->  (RECV GOT)
      (reply Method (arg…) (msg TYPE wireval…)) ->  GOT
      (flow NCALLERS complete|stuck)            ->  ok | (reject why)
-   Values:  integers bare; (s #hex) string; (b #hex) []byte; (buf n) out-buffer of length n;
+   Values:  integers bare; (s #hex) string; (b #hex…) []byte (atoms concatenated); (buf n) out-buffer of length n;
             (ss #hex…) []string; (q t v p) Qid; (qs (q…)…) []Qid;
             (dir type dev (q…) mode (t sec nsec) (t sec nsec) length #name #uid #gid #muid)
-   SCRIPT:  (ok val…) | (read #data) | (rerror #ename) | (prerror #ename) | (plain #text)
+   SCRIPT:  (ok val…) | (read #data…) | (rerror #ename) | (prerror #ename) | (plain #text)
    RECV:    none | (recv Method val…)
    GOT:     (got (val…) #out ERR), ERR = nil | (rerror #e) | eof | shortwrite | (overflow n) | closed *)
 From Coq Require Import List NArith ZArith Bool String.
@@ -46,12 +46,15 @@ Fixpoint dir_of_sexps (ks : list (string * kind)) (l : list sexp) : list dval :=
   | _, _ => []
   end.
 
+(* long byte strings come as several atoms: (b #c1 #c2 …) *)
+Definition chunked (s : sexp) : list N := List.concat (map get_bytes (tl (get_list s))).
+
 Definition gval_of_sexp (s : sexp) : gval :=
   match s with
   | SNum z => GInt z
   | _ =>
       if head_is s "s" then GStr (get_bytes (arg s 0))
-      else if head_is s "b" then GBytes (get_bytes (arg s 0))
+      else if head_is s "b" then GBytes (chunked s)
       else if head_is s "buf" then GBuf (get_Z (arg s 0))
       else if head_is s "ss" then GStrs (map get_bytes (tl (get_list s)))
       else if head_is s "q" then GQid (qid_of_sexp s)
@@ -101,7 +104,7 @@ Definition buf_len (args : list gval) : Z :=
 Definition script_session (script : sexp) : session := fun _ sargs =>
   if head_is script "ok" then {| o_vals := map gval_of_sexp (tl (get_list script)); o_out := []; o_err := ENil |}
   else if head_is script "read" then
-    let out := firstn (Z.to_nat (buf_len sargs)) (get_bytes (arg script 0)) in
+    let out := firstn (Z.to_nat (buf_len sargs)) (chunked script) in
     {| o_vals := [GInt (zlen out)]; o_out := out; o_err := ENil |}
   else if head_is script "rerror" then {| o_vals := []; o_out := []; o_err := ERerror (get_bytes (arg script 0)) |}
   else if head_is script "prerror" then {| o_vals := []; o_out := []; o_err := ERerror (get_bytes (arg script 0)) |}
@@ -114,7 +117,7 @@ Definition client_by_name (name : list N) : option cmethod :=
 Definition wval_of_sexp (s : sexp) : val :=
   if head_is s "i" then VF (FInt (zN (arg s 0)) (zN (arg s 1)))
   else if head_is s "s" then VF (FStr (get_bytes (arg s 0)))
-  else if head_is s "b" then VF (FData (get_bytes (arg s 0)))
+  else if head_is s "b" then VF (FData (chunked s))
   else if head_is s "ss" then VF (FStrs (map get_bytes (tl (get_list s))))
   else if head_is s "q" then VF (FQid (qid_of_sexp s))
   else if head_is s "qs" then VF (FQids (map qid_of_sexp (tl (get_list s))))
